@@ -41,7 +41,9 @@ func table(g *fixture.Geo) []fent {
 	return out
 }
 
-func key(comps []string) string { return strings.Join(comps, "\x00/") + fmt.Sprintf("\x00#%d", len(comps)) }
+func key(comps []string) string {
+	return strings.Join(comps, "\x00/") + fmt.Sprintf("\x00#%d", len(comps))
+}
 
 func isPrefix(p, q []string) bool {
 	if len(p) > len(q) {
